@@ -262,6 +262,12 @@ def treeId (H : HashFns) (rid : Bytes) (f : Forest) : Bytes := treeIdOfPre H rid
 /-- `uuid.Nil` -/
 def nilUuid : Bytes := List.replicate 16 0
 
+/-- `ServerIdentity.GetID` (network/struct.go:181-189) on an identity that may have no key: the nil UUID without one -/
+def serverIdOpt (H : HashFns) (text : Option Bytes) : Bytes :=
+  match text with
+  | none => nilUuid
+  | some t => serverIdStr H t
+
 /-- `TreeID.Equal`, `RosterID.Equal`, `TokenID.Equal`, … : comparison of the sixteen bytes -/
 def idEqual (a b : Bytes) : Bool := a == b
 
@@ -537,6 +543,15 @@ def step (s : State) (toks : List String) : State × String :=
   | ["peerset", sid, d] =>
     match uuidArg sid, hexName d with
     | some sid, some d => (s, Util.hex (peerSetId realHash sid d))
+    | _, _ => (s, "bad-op")
+  -- `nokey <port> <port>`: two identities without a public key, at two addresses: the nil id, both
+  | ["nokey", p, q] =>
+    match p.toNat?, q.toNat? with
+    | some a, some b =>
+      if a < 65536 ∧ b < 65536 then
+        let i := serverIdOpt realHash none
+        (s, s!"nil={idIsNil i} same={idEqual i (serverIdOpt realHash none)}")
+      else (s, "bad-op")
     | _, _ => (s, "bad-op")
   -- `ideq <a> <b>`: Equal / IsNil / String of the id types
   | ["ideq", a, b] =>
